@@ -17,7 +17,8 @@ for mid in ids:
         rows.append((mid, prop, "patch does not apply", "", 0)); continue
     t0 = time.time()
     try:
-        r = subprocess.run(["./check", prop, tier], cwd=V, capture_output=True, text=True, timeout=1500 if tier == "quick" else 5400)
+        r = subprocess.run(["./check", prop, tier], cwd=V, capture_output=True, text=True, timeout=1500 if tier == "quick" else 5400,
+                           env=dict(os.environ, TJV_NO_EVIDENCE="1"))     # runs on a deliberately broken tree must not replace the evidence of the real tree
         out, rc = r.stdout, r.returncode
     except subprocess.TimeoutExpired:
         out, rc = "", 124
